@@ -27,3 +27,17 @@ package types
 //@   ensures exact1: raw(ratio) == DEC_ONE ==> (k >= 0 ==> minted * pow10(k) == burned) && (k < 0 ==> minted == burned * pow10(0 - k))
 //@   ensures dust1:  raw(ratio) == DEC_ONE ==> input - burned < pow10(max(k, 0))
 //@ end
+
+// The symbol / min-unit validators are regular-expression checks: outcome = a fixed predicate of the string (trusted).
+//@ func ValidateSymbol(symbol)
+//@   property C12
+//@   trusted
+//@   returns err
+//@   ensures ok: (err == nil) == ufb("token_symbol_ok", symbol)
+//@ end
+//@ func ValidateMinUnit(minUnit)
+//@   property C12
+//@   trusted
+//@   returns err
+//@   ensures ok: (err == nil) == ufb("token_minunit_ok", minUnit)
+//@ end
